@@ -4,7 +4,7 @@
      base/bmatch                      value matchers (YAML tags), LogMatcher.Match
    Go's regexp and gobwas/glob enter through the record [oracles] (a Section variable).
    No proofs in this file.  The correspondence entry point [run_case_C15] is at the end. *)
-From SV Require Import Model.Common Model.TfUtf8 Model.TfUtf8Dec Model.TfUnescape Model.Template Model.Extractor Model.TinyRegex.
+From SV Require Import Model.Common Model.TfUtf8 Model.TfUtf8Dec Model.TfUnescape Model.Template Model.Extractor Model.TinyRegex Model.TfDropLong.
 Open Scope N_scope.
 
 (* ---------------------------------------------------------------------------------------------- *)
@@ -695,9 +695,12 @@ Fixpoint repeat_fields (units : list bytes) (counts : list Z) : list bytes :=
    kind 1: the same, but the field values are units, and after the (RawLength, Unescaped) pairs zargs
    holds one repeat count per field: value = the unit repeated that many times
    kind 2: util.CleanUTF8 alone on every byte string of S, by the rune-level loop of Model/TfUtf8Dec.v
-   (run_clean_case: cleaned bytes + utf8.DecodeRune along the input) *)
+   (run_clean_case: cleaned bytes + utf8.DecodeRune along the input)
+   kind 3: one sampled drop node on a LONG rule-defined stream (Model/TfDropLong.v): zargs = rate, n records,
+   a, b, q, u (record i is not matched iff (i*a+b) mod q < u), checkpoint interval *)
 Definition run_case_C15 (c : case) : bytes :=
   if c_kind c =? 2 then run_clean_case (c_sargs c) else
+  if c_kind c =? 3 then run_long_drop_case (c_zargs c) else
   match parse_program (sarg c 0) with
   | None => s_badprog
   | Some prog =>
